@@ -6,6 +6,27 @@ BASELINE_OFF = json.load(open('/root/.vp/BASELINE.json'))['cmd']
 
 # id -> (engine, category, technique, text, note, design_ref)
 CHECKS = {
+ 'C05': ('ptymon+httpmon', 'exploration',
+   'runtime monitoring of the real -race binary on a pty and of hsrv in-process over many configurations: every advertised fingerprint compared with the pin computed by an independent TLS client from the presented leaf; real curl --pinnedpubkey with the advertised and a one-bit-altered pin; bound port read from /proc',
+   'Held on 16 (quick) / 200 (thorough) configurations of the real binary (9 listen-address forms x callback addresses x file serving x IPv6 one-liners x custom template x cache forms incl. restart sequences) and 80 / 750 in-process servers: every sha256// text on the terminal (start-up, file and re-printed one-liners) and in /c scripts equalled the served pin, curl accepted it and rejected the altered pin with exit 90, one-liners named the bound port unless the user gave one.',
+   'Callback host names that do not resolve here are exercised through curl --connect-to; link-local one-liners likewise.',
+   'DESIGN.md C05'),
+ 'C07': ('httpmon', 'exploration',
+   'reference-function monitor for the callback address over all 16 presence combinations of c2 parameter/header/Host/SNI on IPv4, IPv6 and port-443 listeners with fixed IDNA known-answer vectors; ID uniqueness monitor; generated scripts executed by /bin/sh with real curl; template-file histories',
+   'Held on 450 (quick) / 8 100 (thorough) precedence requests, 3 000 / 50 000 IDs (no repeat, safe alphabet), 8 / 80 scripts actually run to an attached shell with a command round trip, and 160 / 2 000 template edit/remove/recreate steps each reflected by the very next response (errors answered with an error status and an empty body).',
+   'Unicode hosts can only be sent through an absolute-form target; only fixed IDNA vectors; ambiguous query-vs-body precedence accepts either value.',
+   'DESIGN.md C07'),
+ 'C14': ('libmon', 'exploration',
+   'runtime monitoring of CmdShell with generated child programs (position-coded stdout/stderr alphabets), scripted slow/late consumers and stdin feeders; ground truth from the child\'s own report file',
+   'Held on 120 (quick) / 3 000 (thorough) cases over output sizes 0 to 4 pipe buffers per descriptor, write sizes, pauses, exit codes, immediate/lingering exit, consumers that start only after the child exited or read slowly, and binary stdin up to 256 KiB: every byte arrived per descriptor in order before EOF, the stream ended with EOF, non-zero exits were reported.',
+   'No grand-children holding the pipes; relative order between stdout and stderr not judged; Linux /proc used to detect child exit.',
+   'DESIGN.md C14'),
+ 'C20': ('ptymon', 'fault_enumeration',
+   'fault enumeration on the real -race binary: 24 start-up faults (no TTY, listen address, cache, log file, Ctrl+I source; some as uid 65534) singly and in cross-class pairs x informational flags x TTY/no TTY; exit status, output scan for crash signatures and cause keywords, termios before/after on the pty slave',
+   'Held on all single faults x {TTY, no TTY}, singles x informational flags and 40 sampled pairs (quick) / all 173 cross-class pairs x flags x TTY modes, 1 450 runs (thorough), plus Ctrl+C / Ctrl+D / -one-shell clean exits: non-zero status with a message naming the cause, never a panic or stack trace, terminal mode restored after every self-initiated exit.',
+   'Cause naming is judged at keyword level; a TTY whose /dev/tty is unusable cannot be produced here; uid faults need root.',
+   'DESIGN.md C20'),
+
  'C10': ('httpmon', 'exploration',
    'runtime monitoring of operator notices: hsrv in-process on real TLS in seven configurations, raw requests carrying printf-looking text, marker-delimited notice windows scanned for formatter artefacts and for the verbatim client text; -race',
    'Held on 2 800 (quick) / 42 000 (thorough) requests over path, raw query, c2 parameter/header, Host, undecodable escapes, /i and /o IDs and refusals naming two IDs, on the file (200/404/500), script (ok, template read/parse/exec error, c2 error), in, out and refusal paths: no notice contained %! and one notice always carried the client text character for character.',
